@@ -270,6 +270,17 @@ class Workspace(AbstractContextManager):
             omit_list=["_workspace", "_on_file"] + list(omit_list),
         )
 
+        # the copy's type gets maps of its own (a map belongs to one type)
+        value_map = entity_type_kwargs.get("value_map")
+        if value_map is not None and hasattr(value_map, "map"):
+            entity_type_kwargs["value_map"] = dict(value_map.map)
+        color_map = entity_type_kwargs.get("color_map")
+        if color_map is not None and hasattr(color_map, "values"):
+            entity_type_kwargs["color_map"] = {
+                "name": color_map.name,
+                "values": np.asarray(color_map.values).T.copy(),
+            }
+
         # overwrite kwargs
         entity_kwargs.update(
             (k, kwargs[k]) for k in entity_kwargs.keys() & kwargs.keys()
